@@ -97,11 +97,51 @@ def free_param_docs():
     return out
 
 
+# dependence chains that stay inside one function body: parameters, local variables and local constants whose own
+# initialisers depend on run-time values (a function-local initialiser is not itself a compile-time context)
+LOCAL_CHAINS = [
+    ("parameter", "", "p + 1", True),
+    ("local-variable", "int ln = 3;", "ln", True),
+    ("local-const-from-parameter", "const int lk = p;", "lk", True),
+    ("local-const-from-global-variable", "const int lk = v;", "lk + 1", True),
+    ("local-const-chain", "const int l1 = v; const int l2 = l1 + 1;", "l2", True),
+    ("local-const-from-function-of-variable", "const int lk = fv();", "lk", True),
+    ("local-const-from-local-variable", "int ln = 1; const int lk = ln + 1;", "lk", True),
+    ("local-const-array-from-variable", "const int la[2] = {v, 1};", "la[0] + 1", True),
+    ("local-const-from-parameter-in-outer-block", "const int lk = p; {", "lk", True),
+    ("global-constant", "", "k + 1", False),
+    ("function-of-constants", "", "fk2()", False),
+]
+LOCAL_CONTEXTS = {
+    "array-size": "int arr[%s]; arr[0] = 1;",
+    "range-bound": "int[0, %s] r; r = 0;",
+    "nested-block-array-size": "{ int arr[%s]; arr[0] = 1; }",
+    "iteration-range": "for (i : int[0, %s]) { mv = i; }",
+    "local-typedef-array": "typedef int At[%s]; At q; q[0] = 1;",
+    "local-struct-field-array": "struct { int f[%s]; } sq; sq.f[0] = 1;",
+    "second-dimension": "int arr[2][%s]; arr[0][0] = 1;",
+}
+
+
+def local_cells():
+    out = []
+    for cid, ctx in LOCAL_CONTEXTS.items():
+        for eid, prelude, e, mut in LOCAL_CHAINS:
+            body = prelude + " " + (ctx % e) + (" }" if prelude.endswith("{") else "")
+            fn = "void g(int p) { %s }" % body
+            for place in ("global-function", "template-local-function"):
+                doc = X.nta(GDECL + (fn if place == "global-function" else ""), [tpl(decl=fn if place != "global-function" else "")], SYS)
+                out.append(("function-local:%s:%s:%s" % (place, cid, eid), "mutable" if mut else "const", e, doc))
+    return out
+
+
 def run_shard(cid):
     part = engine.Part()
     w = engine.worker("fast")
     if cid == "free-params":
         cells = [(a, b, None, c) for a, b, c in free_param_docs()]
+    elif cid == "function-local-chains":
+        cells = local_cells()
     else:
         cells = [("%s:%s" % (cid, eid), "mutable" if mut else "const", e, CONTEXTS[cid](e)) for eid, e, mut in EXPRS]
     res = X.run_docs(w, [c[3] for c in cells], want=["noinv"], batch=50)
@@ -139,11 +179,13 @@ def main():
                         "instantiation) x %d expressions (12 constant: literals, constants, const arrays/structs, functions of "
                         "constants with chains 1-3, loops; 14 with a dependence on a mutable variable: direct, array, struct, inline-if, "
                         "functions of depth 1-3, through statements/loops/arguments, meta), plus free process parameters inside array "
-                        "sizes with bound twins." % (len(CONTEXTS), len(EXPRS)))
-    for res in engine.pmap(run_shard, list(CONTEXTS) + ["free-params"]):
+                        "sizes with bound twins; plus %d function-local contexts x %d chains that stay inside one function body (parameters, local "
+                        "variables, local constants initialised from run-time values, chains of those), in global and template-local "
+                        "functions." % (len(CONTEXTS), len(EXPRS), len(LOCAL_CONTEXTS), len(LOCAL_CHAINS)))
+    for res in engine.pmap(run_shard, list(CONTEXTS) + ["free-params", "function-local-chains"]):
         rep.merge(res)
     rep.assumptions = ["every declared type is used by a variable (the statement speaks of used types)",
-                       "function-local initialisers are not in the statement's list and are not enumerated"]
+                       "function-local initialisers are not compile-time contexts themselves; sizes and bounds of function-local declarations are"]
     sys.exit(rep.finish())
 
 
